@@ -26,6 +26,7 @@ const rule = "case = one handler of a supported return shape (string, []byte, er
 	"non-trivial = empty / nil / zero results, a nil error in a pair, a pointer or interface result, a non-200 status, a position other than the route handler, or a custom ReturnHandler; distinct by case text"
 
 var assumptions = []string{
+	"a handler that has already flushed / sent a status line / written itself and then returns a value: the value is rendered all the same ('after a handler returns, its return values having been rendered first', C03) - only the status line is taken by then",
 	"int statuses are valid status codes (net/http panics on others)",
 	"(int, \"\") sends the status with an empty body: 'uses the int as status' (DESIGN.md section 6)",
 }
@@ -236,6 +237,9 @@ func checkCase(c Case) (out evid.Outcome) {
 	var customGot []reflect.Value
 	customCalls := 0
 	custom := flamego.ReturnHandler(func(ctx flamego.Context, vals []reflect.Value) {
+		if len(vals) == 0 {
+			return // (whether a handler that returns nothing is reported here at all is open)
+		}
 		customCalls++
 		customGot = vals
 	})
@@ -293,6 +297,15 @@ func checkCase(c Case) (out evid.Outcome) {
 	}
 
 	wantStatus, wantBody, wantWritten := c.table()
+	if namedShape := c.Shape == "named" || c.Shape == "named_bytes" || c.Shape == "namedcode_string"; namedShape && c.Custom == "" && c.Own == "" && spy.Status() == 0 && len(spy.Body) == 0 && (markerRan || c.Pos == "action") {
+		// a value of a *named* string / byte-slice / int type is not literally
+		// "a string, a byte slice, an int": treating it as its underlying kind
+		// (what the table above says) or as no renderable value at all (nothing
+		// written, the chain goes on) are both accepted
+		out.Classes = append(out.Classes, "named-type-not-rendered", "shape:"+c.Shape)
+		out.NonTrivial = true
+		return out
+	}
 	if c.Custom != "" {
 		wantStatus, wantBody, wantWritten = 0, "", false
 	}
